@@ -91,11 +91,19 @@ def run_cfg(ctx, p, cfg):
         r.require(pre == ("const", "str", "$ENV{"), "prefix-literal", fn=f, site=mi.at, detail="searched literal %s" % show(pre))
         plen = len(pre[2].encode()) if pre[0] == "const" else None
         # offset added to match_start
-        sp = f.calls("core::str::<impl str>::split_at")
+        # the text the name scan runs over: path.split_at(off).1 or &path[off..], off = match_start + const
         offs = None
-        if sp:
-            e = deep_strip(sp[0].arg(1))
-            if e[0] == "bin" and e[1] == "Add" and strip(e[3])[0] == "const":
+        ft = p.fn_threaded(EXPAND)
+        for ch in ft.calls("core::str::<impl str>::chars"):
+            t_ = deep_strip(ch.arg(0))
+            e = None
+            if t_[0] == "field" and t_[2] == "1" and deep_strip(t_[1])[0] == "call" and deep_strip(t_[1])[1] == "core::str::<impl str>::split_at":
+                e = deep_strip(deep_strip(t_[1])[2][1])
+            elif t_[0] == "call" and t_[1] == "core::ops::index::Index::index":
+                rg = deep_strip(t_[2][1])
+                if rg[0] == "agg" and rg[1].endswith("range::RangeFrom"):
+                    e = deep_strip(dict(rg[3])["start"])
+            if e is not None and e[0] == "bin" and e[1] == "Add" and strip(e[3])[0] == "const" and any(x[0] == "as" and x[2] == "Some" for x in walk(e[2])):
                 offs = strip(e[3])[2]
         r.require(offs == plen, "offset-is-prefix-length", fn=f, detail="name starts at match_start + %s; len(prefix) = %s" % (offs, plen))
         # suffix char
@@ -121,12 +129,25 @@ def run_cfg(ctx, p, cfg):
         if sl:
             fd = dict(sl[0][3])
             en = deep_strip(fd.get("end"))
-            consts = [strip(x[3])[2] for x in walk(en) if x[0] == "bin" and x[1] == "Add" and strip(x[3])[0] == "const"]
-            has_len = any(x[0] == "call" and x[1] == "alloc::string::String::len" for x in walk(en))
+            def terms(x):
+                x = deep_strip(x)
+                if x[0] == "bin" and x[1] == "Add":
+                    return terms(x[2]) + terms(x[3])
+                return [x]
+            tm = terms(en)
+            consts = [x[2] for x in tm if x[0] == "const"]
+            lens = [x for x in tm if x[0] == "call" and x[1] in ("alloc::string::String::len", "core::str::<impl str>::len")]
+            rest = [x for x in tm if x[0] != "const" and x not in lens]
+            has_len = len(lens) == 1 and len(rest) == 1 and show(rest[0], 12) == show(deep_strip(fd.get("start")), 12)
             okend = sorted(consts) == sorted([plen, len((suff or "}").encode())]) and has_len
             r.require(okend, "match-end-arithmetic", fn=f, detail="matched slice end = start + %s + name.len() (constants %s; expected prefix %s + suffix %s)" % ("…", consts, plen, len((suff or '}').encode())))
             st = deep_strip(fd.get("start"))
-            r.require(any(x[0] == "as" and x[2] == "Some" for x in walk(st)) and not any(x[0] == "bin" for x in walk(st)), "match-start-is-the-match-offset", fn=f, detail="slice start %s" % show(st, 4))
+            top = st
+            while top[0] == "field":
+                top = deep_strip(top[1])
+            okst = st[0] == "field" and top[0] == "as" and top[2] == "Some" and deep_strip(top[1])[0] == "call" and deep_strip(top[1])[1] == NEXT \
+                and any(x[0] == "call" and x[1] == "core::str::<impl str>::match_indices" for x in walk(top[1]))
+            r.require(okst, "match-start-is-the-match-offset", fn=f, detail="slice start %s" % show(st, 4))
         else:
             r.fail("matched-slice", fn=f, detail="replace pattern is not a slice of the path")
         # module constants, if present, agree
@@ -165,6 +186,19 @@ def run_cfg(ctx, p, cfg):
                                 if nf and nf[0] == "Eq" and any(deep_strip(x) == ("const", "char", "}") for x in nf[1:]) and {si2.label(v) for v, _ in al2} == {True}:
                                     on_suffix = True
                         valid_ok = len(trues) == 1 and len(falses) >= 1 and on_suffix
+        # with the flag (if any) threaded away, the replace is reached from the name scan through the '}' edge only
+        ft = p.fn_threaded(EXPAND)
+        rpt = ft.call1(REPLACE)
+        on_suffix = False
+        for sb2, si2, al2 in ft.conditions(rpt.block):
+            d2 = deep_strip(si2.discr)
+            from_scan = any(x[0] == "call" and x[1] == NEXT and any(y[0] == "call" and y[1] == "core::str::<impl str>::chars" for y in walk(x)) for x in walk(d2))
+            if si2.t.get("discr_ty") == "char" and {v for v, _ in al2} == {125} and from_scan:
+                on_suffix = True
+            nf = cmp_nf(si2.discr, True)
+            if nf and nf[0] == "Eq" and any(deep_strip(x) == ("const", "char", "}") for x in nf[1:]) and {si2.label(v) for v, _ in al2} == {True} and from_scan:
+                on_suffix = True
+        valid_ok = valid_ok or on_suffix
         r.require(env_ok, "only-when-variable-is-set", fn=f, site=rp.at, detail="replace is control-dependent on env::var(name) == Ok")
         r.require(valid_ok, "only-when-name-terminated", fn=f, site=rp.at, detail="replace is control-dependent on a flag that is true only on the '}' edge of the name scan")
         ev = f.calls("std::env::var")
@@ -206,7 +240,10 @@ def run_cfg(ctx, p, cfg):
 
     with ctx.rule("N5", "no panic", cfg) as r:
         cone = p.cone([EXPAND], cut_traits=())
-        st = panics.check_cone(r, p, cone, "C19")
+        sat = set()
+        if all(o.ok for o in ctx.obs if o.rule == "N2" and o.config == cfg) and any(o.rule == "N2" and o.config == cfg for o in ctx.obs):
+            sat.add("C19.N2")
+        st = panics.check_cone(r, p, cone, "C19", satisfied=sat)
         ctx.extra.setdefault("panic_inventory", {})[cfg] = dict(st, cone=len(cone))
         r.floor("sites", st["sites"], 4 if p.meta.get("overflow_checks") else 2)
 
